@@ -4,7 +4,7 @@
    the input for every tag length / input length.  The Examples at the end record, on concrete
    inputs, what the formulas of the code BEFORE those commits computed. *)
 From GmVerif Require Import Base.ListX Base.Bytes Cipher.SM4 Cipher.GF128 Cipher.GCM Cipher.CCM
-  Cipher.ZUC Cipher.Aead Cipher.AeadProofs Cipher.GCMProofs.
+  Cipher.ZUC Cipher.Aead Cipher.AeadProofs Cipher.GCMProofs Cipher.AESProofs.
 Require Import Lia ZifyN ZifyNat ZifyBool.
 Ltac Zify.zify_post_hook ::= Z.div_mod_to_equations.
 Local Open Scope nat_scope.
@@ -240,3 +240,292 @@ Proof. reflexivity. Qed.
 (* before fef12f3: a 5-byte input was read up to byte 8 *)
 Example zuc_read_extent_before_fef12f3 : zuc_encrypt_read_extent_old 5 = 8 /\ zuc_encrypt_read_extent 5 = 5.
 Proof. split; reflexivity. Qed.
+
+(* ===================== CBC-MAC: a change confined to one block always changes the MAC ===================== *)
+Lemma bytes_ok_app a b : bytes_ok (a ++ b) = bytes_ok a && bytes_ok b.
+Proof. apply forallb_app. Qed.
+Lemma bytes_ok_zeros n : bytes_ok (zeros n) = true.
+Proof. induction n; [reflexivity|exact IHn]. Qed.
+Lemma bytes_ok_firstn n l : bytes_ok l = true -> bytes_ok (firstn n l) = true.
+Proof. revert l; induction n as [|n IH]; intros [|x l] H; try reflexivity. cbn in *. apply andb_prop in H. destruct H as [H1 H2]. rewrite H1. apply IH, H2. Qed.
+Lemma bytes_ok_skipn n l : bytes_ok l = true -> bytes_ok (skipn n l) = true.
+Proof. revert l; induction n as [|n IH]; intros [|x l] H; try reflexivity; try exact H. cbn in *. apply andb_prop in H. apply IH, H. Qed.
+Lemma bytes_ok_xor : forall a b, bytes_ok a = true -> bytes_ok b = true -> bytes_ok (xor_bytes a b) = true.
+Proof.
+  induction a as [|x a IH]; intros [|y b] Ha Hb; try reflexivity. cbn in *.
+  apply andb_prop in Ha. apply andb_prop in Hb. destruct Ha as [Hx Ha], Hb as [Hy Hb].
+  apply N.ltb_lt in Hx. apply N.ltb_lt in Hy.
+  rewrite (proj2 (N.ltb_lt _ _) (AESProofs.lxor_byte x y Hx Hy)). apply IH; assumption.
+Qed.
+
+Section CbcMacInj.
+  Variable E : list N -> list N.
+  Hypothesis E_len : forall x, length (E x) = 16.
+  Hypothesis E_ok : forall x, bytes_ok (E x) = true.
+  (* E_K is injective on well-formed blocks (it is a permutation of them) *)
+  Hypothesis E_inj : forall x x', blk_ok x -> blk_ok x' -> E x = E x' -> x = x'.
+
+  Lemma pad16_length l : length l <= 16 -> length (pad16 l) = 16.
+  Proof. intros H. unfold pad16. rewrite app_length, zeros_length. lia. Qed.
+  Lemma pad16_full l : length l = 16 -> pad16 l = l.
+  Proof. intros H. unfold pad16. rewrite H. cbn [Nat.sub zeros]. apply app_nil_r. Qed.
+  Lemma pad16_ok l : bytes_ok l = true -> bytes_ok (pad16 l) = true.
+  Proof. intros H. unfold pad16. rewrite bytes_ok_app, H, bytes_ok_zeros. reflexivity. Qed.
+  Lemma E_blk x : blk_ok (E x).
+  Proof. split; [apply E_len|apply E_ok]. Qed.
+  Lemma xor_blk x blk : blk_ok x -> length blk = 16 -> bytes_ok blk = true -> blk_ok (xor_bytes x blk).
+  Proof. intros [Hl Ho] Hb Hbo. split; [rewrite xor_bytes_length; lia|apply bytes_ok_xor; assumption]. Qed.
+
+  Lemma cbcmac_fuel : forall f1 f2 x d, length d <= 16 * f1 -> length d <= 16 * f2 ->
+    cbcmac E f1 x d = cbcmac E f2 x d.
+  Proof.
+    induction f1 as [|f1 IH]; intros f2 x d H1 H2.
+    - destruct d; [|cbn in H1; lia]. destruct f2; reflexivity.
+    - destruct d as [|b d]; [destruct f2; reflexivity|].
+      destruct f2 as [|f2]; [cbn in H2; lia|]. cbn [cbcmac]. apply IH; rewrite skipn_length; lia.
+  Qed.
+  Lemma cbcmac_split : forall k f x pre rest, length pre = 16 * k ->
+    cbcmac E (k + f) x (pre ++ rest) = cbcmac E f (cbcmac E k x pre) rest.
+  Proof.
+    induction k as [|k IH]; intros f x pre rest Hp.
+    - destruct pre; [reflexivity|cbn in Hp; lia].
+    - destruct pre as [|b pre]; [cbn in Hp; lia|].
+      set (p0 := b :: pre) in *. cbn [Nat.add cbcmac].
+      assert (Hnn : p0 ++ rest <> []) by (unfold p0; discriminate).
+      destruct (p0 ++ rest) eqn:Eab; [contradiction|]. rewrite <- Eab. clear Eab Hnn.
+      unfold p0 at 3. fold p0.
+      rewrite firstn_app, skipn_app. replace (16 - length p0) with 0 by lia.
+      rewrite firstn_O, skipn_O, app_nil_r.
+      apply IH. rewrite skipn_length. lia.
+  Qed.
+  Lemma cbcmac_blk : forall f x d, blk_ok x -> blk_ok (cbcmac E f x d).
+  Proof.
+    induction f as [|f IH]; intros x d Hx; cbn [cbcmac]; [exact Hx|].
+    destruct d; [exact Hx|]. apply IH, E_blk.
+  Qed.
+
+  (* different chaining values stay different under the same remaining data *)
+  Lemma cbcmac_diff : forall f x x' d, blk_ok x -> blk_ok x' -> bytes_ok d = true -> x <> x' ->
+    cbcmac E f x d <> cbcmac E f x' d.
+  Proof.
+    induction f as [|f IH]; intros x x' d Hx Hx' Hd Hne; cbn [cbcmac]; [exact Hne|].
+    destruct d as [|b d]; [exact Hne|].
+    set (blk := pad16 (firstn 16 (b :: d))).
+    assert (Hbl : length blk = 16) by (apply pad16_length; rewrite firstn_length; lia).
+    assert (Hbo : bytes_ok blk = true) by (apply pad16_ok, bytes_ok_firstn, Hd).
+    apply IH; try apply E_blk; [apply bytes_ok_skipn, Hd|].
+    intros HE. apply E_inj in HE; try (apply xor_blk; assumption). apply Hne.
+    apply (xor_bytes_cancel_r x x' blk); try exact HE; destruct Hx, Hx'; lia.
+  Qed.
+
+  Theorem cbc_mac_one_block_change pre b b' post :
+    length pre mod 16 = 0 -> length b = 16 -> length b' = 16 -> b <> b' ->
+    bytes_ok pre = true -> bytes_ok b = true -> bytes_ok b' = true -> bytes_ok post = true ->
+    cbc_mac E (pre ++ b ++ post) <> cbc_mac E (pre ++ b' ++ post).
+  Proof.
+    intros Hpre Hb Hb' Hne Hop Hob Hob' Hopost. unfold cbc_mac.
+    set (k := length pre / 16).
+    assert (Hk : length pre = 16 * k) by (pose proof (Nat.div_mod (length pre) 16 ltac:(lia)); subst k; lia).
+    set (f := 1 + length post).
+    rewrite (cbcmac_fuel _ (k + f) _ (pre ++ b ++ post)) by (rewrite !app_length; unfold f; lia).
+    rewrite (cbcmac_fuel _ (k + f) _ (pre ++ b' ++ post)) by (rewrite !app_length; unfold f; lia).
+    rewrite !cbcmac_split by exact Hk.
+    set (X := cbcmac E k (zeros 16) pre).
+    assert (HX : blk_ok X) by (apply cbcmac_blk; split; [apply zeros_length|apply bytes_ok_zeros]).
+    unfold f. cbn [Nat.add cbcmac].
+    destruct b as [|b0 bt]; [discriminate|]. destruct b' as [|b0' bt']; [discriminate|].
+    cbn [app]. set (B := b0 :: bt) in *. set (B' := b0' :: bt') in *.
+    change (b0 :: bt ++ post) with (B ++ post). change (b0' :: bt' ++ post) with (B' ++ post).
+    rewrite !firstn_app, !skipn_app, Hb, Hb', Nat.sub_diag, !firstn_O, !skipn_O, !app_nil_r.
+    rewrite !firstn_all2, !skipn_all2 by lia. cbn [app].
+    rewrite !pad16_full by assumption.
+    apply cbcmac_diff; try apply E_blk; [exact Hopost|].
+    intros HE. apply E_inj in HE; try (apply xor_blk; assumption). apply Hne.
+    apply (xor_bytes_cancel_l X B B'); try exact HE; destruct HX; lia.
+  Qed.
+
+  (* CCM, 16-byte tag, same key and nonce: if the formatted MAC inputs of the genuine message and of a
+     modified (AAD', C') differ in exactly one aligned block -- which is what a bit flip in the AAD or
+     in the ciphertext produces -- the modified message is rejected. *)
+  Theorem ccm_one_block_change_rejected iv aad c aad' c' tag p pre b b' post :
+    length tag = 16 ->
+    ccm_decrypt E iv aad c tag = Ok p ->
+    ccm_mac_input iv aad (ccm_ctr E iv c) 16 = pre ++ b ++ post ->
+    ccm_mac_input iv aad' (ccm_ctr E iv c') 16 = pre ++ b' ++ post ->
+    length pre mod 16 = 0 -> length b = 16 -> length b' = 16 -> b <> b' ->
+    bytes_ok pre = true -> bytes_ok b = true -> bytes_ok b' = true -> bytes_ok post = true ->
+    forall p', ccm_decrypt E iv aad' c' tag <> Ok p'.
+  Proof.
+    intros Ht Hok Hm Hm' Hpre Hb Hb' Hne Hop Hob Hob' Hopost p' Hok'.
+    apply ccm_accept_iff in Hok. apply ccm_accept_iff in Hok'.
+    destruct Hok as (_ & _ & _ & T1). destruct Hok' as (_ & _ & _ & T2).
+    rewrite Ht in T1, T2.
+    rewrite firstn_all2 in T1, T2 by (rewrite (ccm_tag16_length E iv E_len); lia).
+    unfold ccm_tag16 in T1, T2. rewrite Hm in T1. rewrite Hm' in T2. rewrite <- T2 in T1.
+    assert (Hz : blk_ok (zeros 16)) by (split; [apply zeros_length|apply bytes_ok_zeros]).
+    apply xor_bytes_cancel_r in T1.
+    - exact (cbc_mac_one_block_change pre b b' post Hpre Hb Hb' Hne Hop Hob Hob' Hopost T1).
+    - unfold cbc_mac. rewrite E_len. apply cbcmac_blk, Hz.
+    - unfold cbc_mac. rewrite E_len. apply cbcmac_blk, Hz.
+  Qed.
+End CbcMacInj.
+
+(* ---- instance: the ciphertext changed inside one aligned 16-byte block (any bit flips there) ---- *)
+Lemma bytes_ok_N_to_be k x : bytes_ok (N_to_be k x) = true.
+Proof.
+  revert x; induction k as [|k IH]; intros x; [reflexivity|]. cbn [N_to_be].
+  rewrite bytes_ok_app, IH. cbn. replace (x mod 256 <? 256)%N with true; [reflexivity|].
+  symmetry. apply N.ltb_lt. apply N.mod_lt. discriminate.
+Qed.
+
+Section CcmCtBlock.
+  Variable E : list N -> list N.
+  Hypothesis E_len : forall x, length (E x) = 16.
+  Hypothesis E_ok : forall x, bytes_ok (E x) = true.
+  Hypothesis E_inj : forall x x', blk_ok x -> blk_ok x' -> E x = E x' -> x = x'.
+
+  Lemma ctr_crypt_ok incr : forall f ctr d, bytes_ok d = true -> bytes_ok (ctr_crypt E incr f ctr d) = true.
+  Proof.
+    induction f as [|f IH]; intros ctr d Hd; [reflexivity|]. cbn [ctr_crypt].
+    destruct d as [|b d]; [reflexivity|].
+    rewrite bytes_ok_app, bytes_ok_xor, IH; try reflexivity;
+      first [apply bytes_ok_skipn, Hd | apply bytes_ok_firstn, Hd | apply E_ok].
+  Qed.
+
+  Lemma ccm_ctr_block iv cpre (cb : list N) cpost : length cpre mod 16 = 0 -> length cb = 16 ->
+    bytes_ok cpre = true -> bytes_ok cpost = true ->
+    exists P1 K P3, length P1 = length cpre /\ length K = 16 /\
+      bytes_ok P1 = true /\ bytes_ok K = true /\ bytes_ok P3 = true /\
+      forall cb0 : list N, length cb0 = 16 ->
+        ccm_ctr E iv (cpre ++ cb0 ++ cpost) = P1 ++ xor_bytes cb0 K ++ P3.
+  Proof.
+    intros Hpre Hcb Hop Hopost.
+    set (k := length cpre / 16).
+    assert (Hk : length cpre = 16 * k) by (pose proof (Nat.div_mod (length cpre) 16 ltac:(lia)); subst k; lia).
+    set (incr := ctr_n_incr (15 - length iv)).
+    exists (ctr_crypt E incr k (ccm_a1 iv) cpre), (E (incr_k incr k (ccm_a1 iv))),
+           (ctr_crypt E incr (length cpost) (incr (incr_k incr k (ccm_a1 iv))) cpost).
+    split; [apply (ctr_crypt_length E E_len [] 0); lia|]. split; [apply E_len|].
+    split; [apply ctr_crypt_ok, Hop|]. split; [apply E_ok|]. split; [apply ctr_crypt_ok, Hopost|].
+    intros cb0 Hcb0. unfold ccm_ctr. fold incr.
+    rewrite (ctr_fuel E incr _ (k + (1 + length cpost))) by (rewrite !app_length; lia).
+    rewrite ctr_split by exact Hk. f_equal.
+    cbn [Nat.add ctr_crypt].
+    destruct cb0 as [|x0 xt]; [discriminate|]. cbn [app]. set (B := x0 :: xt) in *.
+    change (x0 :: xt ++ cpost) with (B ++ cpost).
+    rewrite firstn_app, skipn_app, Hcb0, Nat.sub_diag, firstn_O, skipn_O, app_nil_r.
+    rewrite firstn_all2, skipn_all2 by lia. reflexivity.
+  Qed.
+
+  Lemma ccm_b0_length iv al pl t : length iv <= 15 -> length (ccm_b0 iv al pl t) = 16.
+  Proof. intros H. unfold ccm_b0, length_to_bytes. rewrite !app_length, N_to_be_length. cbn [length]. lia. Qed.
+  Lemma ccm_b0_ok iv al pl t : ccm_args_ok (length iv) t = true -> bytes_ok iv = true ->
+    bytes_ok (ccm_b0 iv al pl t) = true.
+  Proof.
+    intros Ha Hiv. unfold ccm_b0, length_to_bytes.
+    rewrite !bytes_ok_app, Hiv, bytes_ok_N_to_be, !andb_true_r.
+    destruct (ccm_flags_ok _ _ (0 <? al)%N Ha) as [Hf _].
+    replace (if (0 <? al)%N then 1%N else 0%N) with (if (0 <? al)%N then 1%N else 0%N) in Hf by reflexivity.
+    rewrite Hf. unfold spec_flags. cbn [bytes_ok forallb]. rewrite andb_true_r. apply N.ltb_lt.
+    unfold ccm_args_ok in Ha. repeat (apply andb_prop in Ha; destruct Ha as [Ha ?]).
+    repeat match goal with Hx : (_ <=? _) = true |- _ => apply Nat.leb_le in Hx end.
+    destruct (0 <? al)%N; lia.
+  Qed.
+  Lemma ccm_aad_hdr_ok al : bytes_ok (ccm_aad_hdr al) = true.
+  Proof.
+    unfold ccm_aad_hdr, length_to_bytes.
+    destruct (al <? 2 ^ 16 - 2 ^ 8)%N; [apply bytes_ok_N_to_be|].
+    destruct (al <? 2 ^ 32)%N; rewrite bytes_ok_app, bytes_ok_N_to_be; reflexivity.
+  Qed.
+
+  Theorem ccm_ct_block_change_rejected iv aad cpre cb cb' cpost tag p :
+    length tag = 16 -> length cpre mod 16 = 0 -> length cb = 16 -> length cb' = 16 -> cb <> cb' ->
+    bytes_ok iv = true -> bytes_ok aad = true ->
+    bytes_ok cpre = true -> bytes_ok cb = true -> bytes_ok cb' = true -> bytes_ok cpost = true ->
+    ccm_decrypt E iv aad (cpre ++ cb ++ cpost) tag = Ok p ->
+    forall p', ccm_decrypt E iv aad (cpre ++ cb' ++ cpost) tag <> Ok p'.
+  Proof.
+    intros Ht Hpre Hcb Hcb' Hne Hoiv Hoaad Hop Hob Hob' Hopost Hok.
+    destruct (ccm_ctr_block iv cpre cb cpost Hpre Hcb Hop Hopost) as (P1 & K & P3 & HP1 & HK & HoP1 & HoK & HoP3 & Hctr).
+    assert (Hargs : ccm_args_ok (length iv) 16 = true).
+    { apply ccm_accept_iff in Hok. destruct Hok as (Ha & _). rewrite Ht in Ha. exact Ha. }
+    assert (Hiv : length iv <= 15).
+    { unfold ccm_args_ok in Hargs. repeat (apply andb_prop in Hargs; destruct Hargs as [Hargs ?]).
+      repeat match goal with Hx : (_ <=? _) = true |- _ => apply Nat.leb_le in Hx end. lia. }
+    set (hdr := fun (plen : nat) => ccm_b0 iv (N.of_nat (length aad)) (N.of_nat plen) 16 ++
+                 match aad with
+                 | [] => []
+                 | _ :: _ => (ccm_aad_hdr (N.of_nat (length aad)) ++ aad) ++
+                             zeros (ccm_aad_pad (length (ccm_aad_hdr (N.of_nat (length aad)) ++ aad)))
+                 end).
+    assert (Hlenp : forall cb0 : list N, length cb0 = 16 -> length (P1 ++ xor_bytes cb0 K ++ P3) = length cpre + 16 + length P3).
+    { intros cb0 H0. rewrite !app_length, xor_bytes_length, H0, HK, HP1. lia. }
+    set (plen := length cpre + 16 + length P3).
+    assert (Hhdr : length (hdr plen) mod 16 = 0).
+    { unfold hdr. rewrite app_length, ccm_b0_length by exact Hiv.
+      destruct aad as [|a0 aad']; [reflexivity|].
+      rewrite app_length, zeros_length. unfold ccm_aad_pad.
+      set (n := length (ccm_aad_hdr (N.of_nat (length (a0 :: aad'))) ++ a0 :: aad')). lia. }
+    assert (Hohdr : bytes_ok (hdr plen) = true).
+    { unfold hdr. rewrite bytes_ok_app, ccm_b0_ok by assumption.
+      destruct aad as [|a0 aad']; [reflexivity|].
+      rewrite !bytes_ok_app, ccm_aad_hdr_ok, Hoaad, bytes_ok_zeros. reflexivity. }
+    apply (ccm_one_block_change_rejected E E_len E_ok E_inj iv aad (cpre ++ cb ++ cpost) aad (cpre ++ cb' ++ cpost) tag p
+             (hdr plen ++ P1) (xor_bytes cb K) (xor_bytes cb' K)
+             (P3 ++ zeros ((16 - plen mod 16) mod 16))); try assumption.
+    - rewrite (Hctr cb Hcb). unfold ccm_mac_input. rewrite (Hlenp cb Hcb). fold plen.
+      unfold hdr. rewrite <- !app_assoc. reflexivity.
+    - rewrite (Hctr cb' Hcb'). unfold ccm_mac_input. rewrite (Hlenp cb' Hcb'). fold plen.
+      unfold hdr. rewrite <- !app_assoc. reflexivity.
+    - rewrite app_length, HP1. lia.
+    - rewrite xor_bytes_length, Hcb, HK. reflexivity.
+    - rewrite xor_bytes_length, Hcb', HK. reflexivity.
+    - intros HE. apply Hne. rewrite (xor_bytes_comm cb K), (xor_bytes_comm cb' K) in HE.
+      apply (xor_bytes_cancel_l K cb cb'); try exact HE; lia.
+    - rewrite bytes_ok_app, Hohdr, HoP1. reflexivity.
+    - apply bytes_ok_xor; assumption.
+    - apply bytes_ok_xor; assumption.
+    - rewrite bytes_ok_app, HoP3, bytes_ok_zeros. reflexivity.
+  Qed.
+End CcmCtBlock.
+
+(* ---- SM4-CCM: unconditional (E_K injective on blocks by the SM4 inversion theorem) ---- *)
+From GmVerif Require Import Cipher.SM4Proofs.
+(* never unfold the block cipher during conversion: [sm4E key] must be unfolded to it first *)
+Local Strategy 1000 [sm4_encrypt_block sm4_decrypt_block sm4_crypt_block].
+Lemma sm4E_inj key x x' : length key = 16 -> blk_ok x -> blk_ok x' -> sm4E key x = sm4E key x' -> x = x'.
+Proof.
+  intros Hk [Hl Ho] [Hl' Ho'] HE. unfold sm4E in HE.
+  pose proof (sm4_dec_enc key x Hk Hl Ho) as H1. pose proof (sm4_dec_enc key x' Hk Hl' Ho') as H2.
+  rewrite HE in H1. congruence.
+Qed.
+Theorem sm4_ccm_ct_block_change_rejected key iv aad cpre cb cb' cpost tag p :
+  length key = 16 ->
+  length tag = 16 -> length cpre mod 16 = 0 -> length cb = 16 -> length cb' = 16 -> cb <> cb' ->
+  bytes_ok iv = true -> bytes_ok aad = true ->
+  bytes_ok cpre = true -> bytes_ok cb = true -> bytes_ok cb' = true -> bytes_ok cpost = true ->
+  sm4_ccm_decrypt key iv aad (cpre ++ cb ++ cpost) tag = Ok p ->
+  forall p', sm4_ccm_decrypt key iv aad (cpre ++ cb' ++ cpost) tag <> Ok p'.
+Proof.
+  intros Hk Ht Hpre Hcb Hcb' Hne Hoiv Hoaad Hop Hob Hob' Hopost Hok.
+  assert (HL : forall x, length (sm4E key x) = 16) by (intros x; apply sm4_encrypt_block_length).
+  assert (HO : forall x, bytes_ok (sm4E key x) = true) by (intros x; apply sm4_encrypt_block_ok).
+  assert (HI : forall x x', blk_ok x -> blk_ok x' -> sm4E key x = sm4E key x' -> x = x')
+    by (intros x x'; apply sm4E_inj, Hk).
+  exact (ccm_ct_block_change_rejected (sm4E key) HL HO HI iv aad cpre cb cb' cpost tag p
+           Ht Hpre Hcb Hcb' Hne Hoiv Hoaad Hop Hob Hob' Hopost Hok).
+Qed.
+
+(* ---- SM4-GCM, 12-byte IVs, 16-byte tag: every nonce change is rejected (no premise left) ---- *)
+Theorem sm4_gcm_nonce_change_rejected key iv iv' aad c tag p :
+  length key = 16 -> length tag = 16 -> length iv = 12 -> length iv' = 12 -> iv <> iv' ->
+  bytes_ok iv = true -> bytes_ok iv' = true ->
+  sm4_gcm_decrypt key iv aad c tag = Ok p ->
+  forall p', sm4_gcm_decrypt key iv' aad c tag <> Ok p'.
+Proof.
+  intros Hk Ht Hi Hi' Hne Ho Ho' Hok.
+  assert (HL : forall x, length (sm4E key x) = 16) by (intros x; apply sm4_encrypt_block_length).
+  assert (HI : forall x x', blk_ok x -> blk_ok x' -> sm4E key x = sm4E key x' -> x = x')
+    by (intros x x'; apply sm4E_inj, Hk).
+  exact (gcm_nonce_change_rejected_partial (sm4E key) HL true iv iv' aad c tag p HI Ht Hi Hi' Hne Ho Ho' Hok).
+Qed.
